@@ -289,3 +289,96 @@ pub fn mutate(rng: &mut Rng, t: &FieldType, v: &FieldValue) -> Option<Mutation> 
         }
     }
 }
+
+// ------------------------------------------------------------------ nested structs and their evolution
+const FIELD_NAMES: [&str; 6] = ["sku", "note", "qty", "tags", "meta", "price"];
+
+/// a struct-like (explicitly keyed, text keys) map type whose members are scalars, options, nested structs,
+/// arrays / tuples / wildcard maps / options of nested structs — the shapes #[derive(FieldTyped)] emits
+pub fn gen_struct(rng: &mut Rng, depth: usize) -> FieldType {
+    let n = rng.range(2, 4) as usize;
+    let mut m = BTreeMap::new();
+    let mut names = FIELD_NAMES.to_vec();
+    rng.shuffle(&mut names);
+    for name in names.into_iter().take(n) {
+        let member = if depth == 0 { scalar(rng) } else {
+            match rng.below(10) {
+                0 | 1 => scalar(rng),
+                2 => FieldType::Option(Box::new(scalar(rng))),
+                3 => gen_struct(rng, depth - 1),
+                4 | 5 => FieldType::Array(vec![gen_struct(rng, depth - 1)]),
+                6 => FieldType::Array(vec![scalar(rng), gen_struct(rng, depth - 1)]),
+                7 => FieldType::Map(BTreeMap::from([(TEXT_WILDCARD_KEY.clone(), gen_struct(rng, depth - 1))])),
+                8 => FieldType::Option(Box::new(gen_struct(rng, depth - 1))),
+                _ => FieldType::Array(vec![FieldType::Option(Box::new(gen_struct(rng, depth - 1)))]),
+            }
+        };
+        m.insert(FieldKey::Text(name.to_string()), member);
+    }
+    FieldType::Map(m)
+}
+
+/// a field type that carries nested structs: a struct, or an array / tuple / map / option of structs
+pub fn gen_struct_field(rng: &mut Rng, depth: usize) -> FieldType {
+    let s = gen_struct(rng, depth);
+    match rng.below(8) {
+        0 => s,
+        1 | 2 | 3 => FieldType::Array(vec![s]),
+        4 => FieldType::Array(vec![FieldType::Text, s]),
+        5 => FieldType::Map(BTreeMap::from([(I64_WILDCARD_KEY.clone(), s)])),
+        6 => FieldType::Option(Box::new(FieldType::Array(vec![s]))),
+        _ => FieldType::Array(vec![FieldType::Array(vec![s])]),
+    }
+}
+
+/// A permitted evolution of t: keyed maps lose a key and / or gain an optional one, at any depth.
+/// `fresh` numbers the added keys so a name is never re-added with another type.
+pub fn evolve(rng: &mut Rng, t: &FieldType, fresh: &mut usize, changed: &mut bool) -> FieldType {
+    match t {
+        FieldType::Array(ts) => FieldType::Array(ts.iter().map(|t| evolve(rng, t, fresh, changed)).collect()),
+        FieldType::Option(t) => FieldType::Option(Box::new(evolve(rng, t, fresh, changed))),
+        FieldType::Map(m) if m.is_empty() => t.clone(),
+        FieldType::Map(m) => {
+            if let Some((k, ft)) = as_wildcard_map(m) {
+                return FieldType::Map(BTreeMap::from([(k.clone(), evolve(rng, ft, fresh, changed))]));
+            }
+            let mut r: BTreeMap<FieldKey, FieldType> = m.iter().map(|(k, ft)| (k.clone(), evolve(rng, ft, fresh, changed))).collect();
+            if r.len() > 1 && rng.chance(1, 2) {
+                let i = rng.below(r.len() as u64) as usize;
+                let k = r.keys().nth(i).unwrap().clone();
+                r.remove(&k);
+                *changed = true;
+            }
+            if rng.chance(1, 3) {
+                *fresh += 1;
+                r.insert(FieldKey::Text(format!("added{fresh}")), FieldType::Option(Box::new(scalar(rng))));
+                *changed = true;
+            }
+            // a one-key map whose key is a wildcard sentinel would change meaning
+            if as_wildcard_map(&r).is_some() { *fresh += 1; r.insert(FieldKey::Text(format!("added{fresh}")), FieldType::Option(Box::new(FieldType::Text))); }
+            FieldType::Map(r)
+        }
+        _ => t.clone(),
+    }
+}
+
+/// Independent reading of "surviving members unchanged, removed ones dropped": the value v (canonical under an
+/// older type) restricted to what t declares. Does not use the implementation's prune_undeclared.
+pub fn project(t: &FieldType, v: &FieldValue) -> FieldValue {
+    match (t, v) {
+        (FieldType::Option(t), v) if *v != FieldValue::Null => project(t, v),
+        (FieldType::Array(ts), FieldValue::Array(vs)) => match ts.len() {
+            0 => v.clone(),
+            1 => FieldValue::Array(vs.iter().map(|x| project(&ts[0], x)).collect()),
+            _ => FieldValue::Array(vs.iter().enumerate().map(|(i, x)| if i < ts.len() { project(&ts[i], x) } else { x.clone() }).collect()),
+        },
+        (FieldType::Map(tm), FieldValue::Map(vm)) => {
+            if tm.is_empty() { return v.clone(); }
+            if let Some((_, ft)) = as_wildcard_map(tm) {
+                return FieldValue::Map(vm.iter().map(|(k, x)| (k.clone(), project(ft, x))).collect());
+            }
+            FieldValue::Map(vm.iter().filter_map(|(k, x)| tm.get(k).map(|ft| (k.clone(), project(ft, x)))).collect())
+        }
+        _ => v.clone(),
+    }
+}
